@@ -10,6 +10,7 @@
 #include <nitro/lang/tuple_operators.hpp>
 #include <nitro/lang/unordered.hpp>
 
+#include <climits>
 #include <cmath>
 #include <cstdint>
 #include <functional>
@@ -55,16 +56,17 @@ struct W4 : nitro::lang::tuple_operators<W4>
     std::int16_t s;
     std::uint64_t u;
     bool flag;
-    W4(float f_, std::int16_t s_, std::uint64_t u_, bool fl) : f(f_), s(s_), u(u_), flag(fl)
+    std::uint32_t w;
+    W4(float f_, std::int16_t s_, std::uint64_t u_, bool fl, std::uint32_t w_ = 0) : f(f_), s(s_), u(u_), flag(fl), w(w_)
     {
     }
     auto as_tuple()
     {
-        return std::tie(f, s, u, flag);
+        return std::tie(f, s, u, flag, w);
     }
     std::string str() const
     {
-        return std::string("(") + (std::signbit(f) ? "-" : "+") + std::to_string(std::fabs(f)) + "," + std::to_string(s) + "," + std::to_string(u) + "," + (flag ? "T" : "F") + ")";
+        return std::string("(") + (std::signbit(f) ? "-" : "+") + std::to_string(std::fabs(f)) + "," + std::to_string(s) + "," + std::to_string(u) + "," + (flag ? "T" : "F") + "," + std::to_string(w) + ")";
     }
 };
 
@@ -106,7 +108,9 @@ int lex3<W4>(const W4& x, const W4& y)
         return c;
     if (int c = cmp(x.u, y.u))
         return c;
-    return cmp(x.flag, y.flag);
+    if (int c = cmp(x.flag, y.flag))
+        return c;
+    return cmp(x.w, y.w);
 }
 
 static std::vector<V3> grid_v3(bool big)
@@ -129,10 +133,13 @@ static std::vector<V3> grid_v3(bool big)
 }
 static std::vector<P2> grid_p2(bool big)
 {
+    // values more than 2^31 apart are in the grid on purpose (subtraction-based comparisons wrap there)
     std::vector<P2> g;
-    int n = big ? 5 : 4;
-    for (int x = 0; x < n; x++)
-        for (int y = 0; y < n; y++)
+    std::vector<int> vals = { INT_MIN, -1, 0, 2, INT_MAX };
+    if (big)
+        vals.push_back(1);
+    for (int x : vals)
+        for (int y : vals)
             g.emplace_back(x, y);
     return g;
 }
@@ -148,7 +155,8 @@ static std::vector<W4> grid_w4(bool big)
         for (auto s : ss)
             for (auto u : us)
                 for (int fl = 0; fl < 2; fl++)
-                    g.emplace_back(f, static_cast<std::int16_t>(s), u, fl != 0);
+                    for (std::uint32_t w : { 0u, 0x80000001u })
+                        g.emplace_back(f, static_cast<std::int16_t>(s), u, fl != 0, w);
     return g;
 }
 
@@ -381,7 +389,7 @@ int main(int argc, char** argv)
     cases.push_back({ "sensitivity", [&](std::vector<Fail>& f, mc::Report&) {
                          check_sensitivity("V3", g3, 3, [](const V3& x, const V3& y) { int d = (x.a != y.a) + (x.b != y.b) + (x.c != y.c); return d != 1 ? -1 : x.a != y.a ? 0 : x.b != y.b ? 1 : 2; }, f);
                          check_sensitivity("P2", g2, 2, [](const P2& x, const P2& y) { int d = (x.x != y.x) + (x.y != y.y); return d != 1 ? -1 : x.x != y.x ? 0 : 1; }, f);
-                         check_sensitivity("W4", g4, 4, [](const W4& x, const W4& y) { int d = (x.f != y.f) + (x.s != y.s) + (x.u != y.u) + (x.flag != y.flag); return d != 1 ? -1 : x.f != y.f ? 0 : x.s != y.s ? 1 : x.u != y.u ? 2 : 3; }, f);
+                         check_sensitivity("W4", g4, 5, [](const W4& x, const W4& y) { int d = (x.f != y.f) + (x.s != y.s) + (x.u != y.u) + (x.flag != y.flag) + (x.w != y.w); return d != 1 ? -1 : x.f != y.f ? 0 : x.s != y.s ? 1 : x.u != y.u ? 2 : x.flag != y.flag ? 3 : 4; }, f);
                          // swapped same-typed members
                          long pairs = 0, coll = 0;
                          for (auto& p : g2)
